@@ -15,7 +15,8 @@ M("c10-equality-above-relational", "R10.1", (P, "Operator::Equal => 10,\n       
                                                 "Operator::Equal => 8,\n                            Operator::NotEqual => 8,"))
 # ---- R10.2 associativity
 M("c10-member-access-right-assoc", "R10.2", (P, "if 2 < best_idx_prio {", "if 2 <= best_idx_prio {"))
-M("c10-strict-tiebreak-for-all", "R10.2", (P, "if prio <= best_idx_prio {", "if prio < best_idx_prio {"))
+M("c10-strict-tiebreak-for-all", "R10.2", (P, "                        let right_to_left = matches!(\n                            operator,\n                            Operator::Not | Operator::Assign | Operator::AssignUndefined\n                        );\n                        if prio < best_idx_prio || (right_to_left && prio == best_idx_prio) {",
+                                              "                        if prio < best_idx_prio {"))
 M("c10-scan-from-the-right", "R10.2", (P, "        let mut si = 0;\n        while si < stack.len() {\n            match &stack[si] {",
                                           "        let mut si = stack.len();\n        while si > 0 {\n            si -= 1;\n            match &stack[si] {"),
   (P, "                ExpressionParserItem::SExpression(_) => {}\n            }\n            si += 1;",
@@ -48,8 +49,8 @@ M("c10-concatenated-source-gets-id-1", "R10.5", (D, "                r.push_str(
 
 # ---- benign refactors
 B("c10-benign-rename-prio-local", (P, "let prio = match operator {", "let op_prio = match operator {"),
-  (P, "                        if prio <= best_idx_prio {\n                            best_idx = si;\n                            best_idx_prio = prio;",
-      "                        if op_prio <= best_idx_prio {\n                            best_idx = si;\n                            best_idx_prio = op_prio;"))
+  (P, "                        if prio < best_idx_prio || (right_to_left && prio == best_idx_prio) {\n                            best_idx = si;\n                            best_idx_prio = prio;",
+      "                        if op_prio < best_idx_prio || (right_to_left && op_prio == best_idx_prio) {\n                            best_idx = si;\n                            best_idx_prio = op_prio;"))
 B("c10-benign-extract-priority-helper",
   (P, "                        let prio = match operator {\n                            Operator::Not => 3u8,", "                        let prio = Self::priority_of(operator);\n                        let _unused = match operator {\n                            Operator::Not => 3u8,"),
   (P, "    /// Tries to create an expression from the current contents of the parser-stack.\n",
